@@ -85,7 +85,7 @@ fn search(check_loc: bool) {
         }
     }
     // control skeleton: only the selected arm of an `if` is evaluated; only #f is false; an operand's error is the call's error
-    let fixed: [(&str, &str); 29] = [
+    let fixed: [(&str, &str); 31] = [
         ("(car (cons (if #t 1 (car 5)) 2))", "value 1"),
         ("(car (cons (if #f (car 5) 2) 2))", "value 2"),
         ("(car (cons (if 0 1 2) 2))", "value 1"),
@@ -101,7 +101,7 @@ fn search(check_loc: bool) {
         ("(define (f not) (car (cons (if (not 1) 2 3) 0))) (f (lambda (v) (car v)))", "TypeMisMatch"),
         // a wrong-typed argument to a numeric / comparison builtin is a type error for EVERY argument count, also one
         ("(< 'a)", "TypeMisMatch"), ("(= \"x\")", "TypeMisMatch"), ("(>= 'a)", "TypeMisMatch"), ("(< 1 'a)", "TypeMisMatch"), ("(< 'a 1)", "TypeMisMatch"),
-        ("(< 1 2 'a)", "TypeMisMatch"), ("(= 1 1 \"x\")", "TypeMisMatch"),
+        ("(< 1 2 'a)", "TypeMisMatch"), ("(< 2 1 'a)", "TypeMisMatch"), ("(= 1 2 \"x\")", "TypeMisMatch"), ("(= 1 1 \"x\")", "TypeMisMatch"),
         ("(+ 'a)", "TypeMisMatch"), ("(* 'a)", "TypeMisMatch"), ("(- 'a)", "TypeMisMatch"), ("(+ 1 'a)", "TypeMisMatch"), ("(- 1 2 'a)", "TypeMisMatch"),
         ("(max 'a)", "TypeMisMatch"), ("(min 1 'a)", "TypeMisMatch"), ("(abs 'a)", "TypeMisMatch"),
         ("(define (g x) (<= x)) (g 'a)", "TypeMisMatch"), ("(apply < '(a))", "TypeMisMatch"),
@@ -143,15 +143,5 @@ fn verif_native_callee_location_known() {
     match run(program) {
         Ok((kind, loc)) if loc.map(|l| l[0] == 2).unwrap_or(false) => println!("VERIF-NATIVE: ok the {} error of (f) on line 2 is located at {:?}, inside the failing form", kind, loc),
         other => println!("VERIF-NATIVE: disagree (define (f) nope) on line 1, the failing form (f) on line 2: the error is reported as {:?}, i.e. inside the definition, another top-level form", other),
-    }
-}
-
-#[test]
-fn verif_native_chain_type_known() {
-    // KNOWN FINDING comparison-decided-before-type-check: an n-ary comparison stops at the first adjacent pair that fails and
-    // never looks at the arguments after it, so a wrong-typed argument behind a decided chain is not reported
-    match run("(< 2 1 'a)") {
-        Ok((kind, _)) if kind == "TypeMisMatch" => println!("VERIF-NATIVE: ok (< 2 1 'a) is a type error"),
-        other => println!("VERIF-NATIVE: disagree (< 2 1 'a) -> {:?}: the symbol is never examined because 2 < 1 already decided the chain (expected the TypeMisMatch error)", other),
     }
 }
